@@ -53,11 +53,13 @@ def Mon.flag (m : Mon) (b : Bool) (why : Bad) (child : Option Nat := none) : Mon
   else m
 
 /-- The protocol side of a call on the wrapper (C18: "a re-registration is requested after each
-    change", "the parent's own register and unregister calls alternate"). -/
+    change", "the parent's own register and unregister calls alternate").  The parent may be unregistered at any
+    time while it is registered — also with a change pending (the enclosing source was disabled or removed in the
+    same turn): unregistration then settles the change. -/
 def protoOk (m : Mon) (o : Op) : Bool :=
   match o with
   | .pRegister => !m.parentReg
-  | .pUnregister => m.parentReg && !m.dirty
+  | .pUnregister => m.parentReg
   | .pReregister => m.parentReg
   | .pe _ => m.parentReg && !m.dirty
   | .tsRemove => !m.dirty
@@ -85,7 +87,7 @@ def onOp (m : Mon) (o : Op) : Mon :=
     if m.holding then { m with cur := some c, enabled := true, dirty := m.parentReg } else m
   | .pRegister   => { m with parentReg := true, enabled := true, dirty := false }
   | .pReregister => { m with dirty := false }
-  | .pUnregister => { m with parentReg := false }
+  | .pUnregister => { m with parentReg := false, dirty := false }
   | .map | .isNone => m
 
 /-- registered children must be exactly: the current kept child of a registered parent -/
